@@ -156,4 +156,21 @@ theorem c01_cluster_tail_parser_is_source_parser (bs : Bytes) (c : Nat)
       ((ClusterTail.decode bs).map' (fun t => (0 :: t.offsets ++ [t.dataSize], t.dataSize, t.comp, t.rawSize))) :=
   gen_clusterBuilderParse bs c h4 hcomp hosz hcount
 
+/-- **… and so is the header in front of it**: `ClusterHeader::parse` (with `CompressionType::parse`) translated on
+    every run, followed by the translated rest of `ClusterBuilder::parse`, equals `ClusterTail.decode` on every tail
+    announcing at least one blob: compression byte above 3, offset width outside 1..8 and tails shorter than the header
+    are format errors in both, with no hypothesis on the header left. -/
+theorem c01_cluster_header_and_tail_is_source_parser (bs : Bytes) (c : Nat) (hcount : leNat (slice bs 2 2) = c + 1) :
+    (((Generated.clusterHeaderParse bs).bind fun r =>
+        Generated.clusterBuilderParse r.2 (srcCompressionToNat r.1.1, r.1.2.1, r.1.2.2)).map'
+        (fun r => (r.1.1.1, r.1.1.2.1, r.1.1.2.2, r.1.2))).Same
+      ((ClusterTail.decode bs).map' (fun t => (0 :: t.offsets ++ [t.dataSize], t.dataSize, t.comp, t.rawSize))) :=
+  gen_clusterTailParse bs c hcount
+
+/-- the hypothesis is satisfiable and the decoding is a value: an uncompressed cluster of two blobs, offsets on
+    one byte (raw size 5, data size 5, second blob starts at 2) -/
+example : leNat (slice [0, 1, 2, 0, 5, 5, 2] 2 2) = 1 + 1 ∧
+    (ClusterTail.decode [0, 1, 2, 0, 5, 5, 2]).map' (fun t => (t.offsets, t.dataSize, t.comp)) = .ok ([2], 5, 0) :=
+  ⟨by decide, rfl⟩
+
 end Jubako
